@@ -297,7 +297,12 @@ def process_tpms(
     abort_on_error=True,
 ):
     """Coroutine. Send in one byte if it yields None. Send in None if it yields an MarshalEvents."""
-    if parameter_encryption and issubclass(tpm_type, TPMS_PARAMS):
+    if (
+        parameter_encryption
+        and issubclass(tpm_type, TPMS_PARAMS)
+        and tpm_type.can_be_encrypted()
+    ):
+        # without a leading TPM2B nothing is encrypted (a TPM rejects such a session attribute): decode as is
         tpm_type = tpm_type.encrypted()
 
     none = yield MarshalEvent(path, tpm_type, ...)
